@@ -28,6 +28,7 @@ type Prog struct {
 	ByRel   map[string]*ssa.Package // "" (root), "io", "transform", ...
 	All     map[*ssa.Function]bool  // every function (incl. std, closures)
 	ModFns  []*ssa.Function         // functions of module packages (incl. anonymous), sorted by position
+	anchorMemo map[string]*ssa.Function
 	cgVTA   *callgraph.Graph
 	cgCHA   *callgraph.Graph
 	Tests   bool
@@ -191,7 +192,10 @@ func (p *Prog) FuncOpt(rel, name string) *ssa.Function {
 	if pk == nil {
 		return nil
 	}
-	return pk.Func(name)
+	if f := pk.Func(name); f != nil {
+		return f
+	}
+	return p.structuralAnchor(rel, "", name)
 }
 
 func (p *Prog) Func(rel, name string) *ssa.Function {
@@ -204,6 +208,13 @@ func (p *Prog) Func(rel, name string) *ssa.Function {
 
 // MethodOpt resolves (*T).name or T.name declared in package rel.
 func (p *Prog) MethodOpt(rel, typ, name string) *ssa.Function {
+	if f := p.methodByName(rel, typ, name); f != nil {
+		return f
+	}
+	return p.structuralAnchor(rel, typ, name)
+}
+
+func (p *Prog) methodByName(rel, typ, name string) *ssa.Function {
 	pk := p.ByRel[rel]
 	if pk == nil {
 		return nil
